@@ -3,8 +3,10 @@
 A small decision function is simulated on its CFG under every valuation of a
 handful of named predicates.  Atomic tests are mapped to predicates through the
 rule's atom map (canonical source text of the test, with single-assignment
-locals inlined); a test that cannot be mapped is an ANALYSIS-ERROR, never a
-pass.  The terminal class of each path is compared with the oracle transcribed
+locals inlined).  A test that cannot be mapped is explored *both ways* (sound
+for the inclusion "observed terminal classes are within the specified ones":
+the real behaviour is one of the explored paths), and is named in the
+obligation's detail; with ``strict=True`` it is an ANALYSIS-ERROR instead.  The terminal class of each path is compared with the oracle transcribed
 from the specification.  No repository code is executed and no solver is used:
 this is abstract interpretation over a finite predicate domain.
 """
@@ -57,7 +59,7 @@ def canon(expr, env: dict = None) -> str:
 class Atoms:
     """Maps canonical test text -> (predicate, polarity)."""
 
-    def __init__(self, mapping: Dict[str, Union[str, Tuple[str, bool]]], strict: bool = True, ignore: Iterable[str] = ()):
+    def __init__(self, mapping: Dict[str, Union[str, Tuple[str, bool]]], strict: bool = False, ignore: Iterable[str] = ()):
         self.map: Dict[str, Tuple[str, bool]] = {}
         for k, v in mapping.items():
             if isinstance(v, str):
@@ -69,6 +71,11 @@ class Atoms:
         self.strict = strict
         self.unmapped: List[str] = []
         self.used: Set[str] = set()
+
+    def note(self) -> str:
+        """Text for obligation details: tests the table could not map (explored both ways)."""
+        u = sorted(set(self.unmapped))
+        return f"; unrecognised tests explored both ways: {u}" if u else ""
 
     def lookup(self, text: str) -> Optional[Tuple[str, bool]]:
         r = self.map.get(_norm(text))
